@@ -74,7 +74,9 @@ func verifSym(s string) types.CoinSymbol { return types.StrToCoinSymbol(s) }
 // verifPrices returns a price table whose entries are arbitrary non-negative
 // integers, denominated in the base coin.
 func verifPrices() *commission.Price {
-	p := &commission.Price{Coin: types.GetBaseCoinID()}
+	// config "priceCoin": the coin the price table is denominated in (a custom
+	// coin needs its pool with the base coin: pool10 / pool20)
+	p := &commission.Price{Coin: types.CoinID(verifConfig("priceCoin"))}
 	if verifConfig("concretePrices") == 1 {
 		// every entry 10^17 pip (0.1 BIP), byte price 2*10^15
 		c := func() *big.Int { return new(big.Int).Exp(big.NewInt(10), big.NewInt(17), nil) }
